@@ -105,7 +105,7 @@ def scenarios(ctx):
                                         tick=1),
                            windows=(1, 2, 3), early_pubcomp=True))
     # publishing while CONNECTING, then the handshake completes
-    for profile in ('pub', 'pubsub'):
+    for profile in (('pub',) if q else ('pub', 'pubsub')):
         out.append(Std('%s-connecting' % profile, profile=profile, mode='sync',
                        connects=[(True, 0, 4), (False, 0, 4)],
                        budgets=dict(connect=1, connack=1, pub=3 if q else 4, ack=3, setwin=1, tick=1),
